@@ -108,6 +108,8 @@ Definition integ (F : phase -> A -> A -> res A) (h : phase) (a b : pyv A) : pyv 
 (* Python truthiness *)
 Definition truthy (x : option A) : bool :=
   match x with Some v => negb (ois0 O v) | None => false end.
+Definition is_none {B} (x : option B) : bool :=
+  match x with Some _ => false | None => true end.
 Definition truthy_fn {B} (f : option B) : bool :=
   match f with Some _ => true | None => false end.
 
